@@ -7,6 +7,11 @@ compared with the real solver paths on every run.
 The linear-solver backends are ASSUMED to return an exact solution of the system they
 are handed; the harness measures their residual.
 -/
+import EasyFEAVerif.Gen.C04.Solver
+import Mathlib.Algebra.Order.BigOperators.Ring.Finset
+import Mathlib.Data.Real.Basic
+import Mathlib.Tactic.Linarith
+import Mathlib.Tactic.NormNum
 import EasyFEAVerif.Model.Constraints
 import Mathlib.Algebra.BigOperators.Group.Finset.Basic
 import Mathlib.Algebra.BigOperators.Ring.Finset
@@ -192,5 +197,56 @@ example : solver1 [[2, 1, 0], [1, 3, 1], [0, 1, 2]] [1, 2, 3] [0, 0] [1 / 4, 1 /
 
 example : (solver2 [[2, 1, 0], [1, 3, 1], [0, 1, 2]] [1, 2, 3] 3 [0] [1 / 2] []).map (·.1) = some [1 / 2, 0, 3 / 2] := by
   decide +kernel
+
+
+section boundedBackend
+variable {ι : Type*} [Fintype ι]
+
+/-! ### 7. the bounded least-squares backend (`lsq_linear`, used by the BoundConstrain damage solver) -/
+
+/-- squared residual of the reduced system -/
+noncomputable def resid2 (A : ι → ι → ℝ) (b y : ι → ℝ) : ℝ := ∑ i, (mulRow A y i - b i) ^ 2
+
+/-- When the system has a solution inside the box, every minimiser of the residual over the box solves the system: with
+inactive bounds the bounded least-squares backend returns a solution of the equations it is given, like the other backends
+(uniqueness then follows from `solution_unique`). -/
+theorem bounded_lsq_solves (A : ι → ι → ℝ) (b lb ub x y : ι → ℝ)
+    (hx : ∀ i, mulRow A x i = b i) (_hxbox : ∀ i, lb i ≤ x i ∧ x i ≤ ub i)
+    (hmin : ∀ z : ι → ℝ, (∀ i, lb i ≤ z i ∧ z i ≤ ub i) → resid2 A b y ≤ resid2 A b z) :
+    ∀ i, mulRow A y i = b i := by
+  have h0 : resid2 A b x = 0 := by simp [resid2, hx]
+  have hle : resid2 A b y ≤ 0 := h0 ▸ hmin x _hxbox
+  have hnn : ∀ i ∈ (univ : Finset ι), 0 ≤ (mulRow A y i - b i) ^ 2 := fun i _ => sq_nonneg _
+  have hz : resid2 A b y = 0 := le_antisymm hle (Finset.sum_nonneg hnn)
+  intro i
+  have := (Finset.sum_eq_zero_iff_of_nonneg hnn).mp hz i (mem_univ i)
+  have h2 : mulRow A y i - b i = 0 := by simpa using this
+  linarith
+
+omit [Fintype ι] in
+/-- the reduced system keeps the bounds of the unknown dofs (this is what `__Solver_1` hands to the backend since the `fix:`
+commit 0415817): the assembled vector then holds the prescribed values and respects the bounds on every free dof -/
+theorem bounded_combine (known : ι → Prop) [DecidablePred known] (lb ub xc xu : ι → ℝ)
+    (hbox : ∀ j, ¬ known j → lb j ≤ xu j ∧ xu j ≤ ub j) :
+    (∀ j, known j → combine known xc xu j = xc j) ∧
+    (∀ j, ¬ known j → lb j ≤ combine known xc xu j ∧ combine known xc xu j ≤ ub j) := by
+  refine ⟨fun j hj => by simp [combine, hj], fun j hj => ?_⟩
+  simpa [combine, hj] using hbox j hj
+
+/-- the two arrays handed to the backend have one entry per unknown (the shape the backend requires) -/
+theorem reduced_bounds_length (lb : EasyFEAVerif.Constraints.Vec) (unknown : List Nat) :
+    (EasyFEAVerif.Constraints.subVec lb unknown).length = unknown.length := by
+  simp [EasyFEAVerif.Constraints.subVec]
+
+/-- non-vacuity: the 1 x 1 system 2 x = 1 with box [0, 1] -/
+example : mulRow (fun (_ _ : Fin 1) => (2 : ℝ)) (fun _ => 1 / 2) 0 = 1 ∧ (0 : ℝ) ≤ 1 / 2 ∧ (1 / 2 : ℝ) ≤ 1 := by
+  refine ⟨by simp [mulRow], by norm_num, by norm_num⟩
+
+end boundedBackend
+
+/-- the statements of the elimination solver the theorems of this file were written from (regenerated on every run) -/
+theorem solverForms_spec : (EasyFEAVerif.Gen.C04.solverForms.map Prod.fst) = ["__Solver_1", "_Solve_Axb"] ∧
+    (EasyFEAVerif.Gen.C04.solverForms.lookup "__Solver_1").map (fun l => l.contains "lb, ub = (lb[dofsUnknown], ub[dofsUnknown])" && l.contains "bi -= Aic @ xc" && l.contains "x[dofsUnknown] = xi") = some true := by
+  decide
 
 end EasyFEAVerif.Props.C04
